@@ -223,7 +223,11 @@ static void
 u_closure(uint64_t idx, void *arg)
 {
     (void)arg;
-    const size_t size = (size_t)idx + 1;
+    /* units 0..4: sizes 1..5 with contents over {a1,b2}; units 5..9: the same over {00,a1} - a zero octet is what
+     * cleared memory holds, so "was written" and "was cleared" can only be told apart with the first alphabet, and
+     * anything keyed on the value zero only shows with the second */
+    const size_t size = (size_t)(idx % 5) + 1;
+    const unsigned char letter0 = idx >= 5 ? 0x00 : 0xA1, letter1 = idx >= 5 ? 0xA1 : 0xB2;
     enum { MAXST = 100000 };
     static struct st stv[MAXST];
     static uint64_t keys[MAXST];
@@ -267,7 +271,7 @@ u_closure(uint64_t idx, void *arg)
                     memcpy(m.img, cur.img, size);
                     unsigned char src[8];
                     for (size_t i = 0; i < n && i < 8; i++)
-                        src[i] = (content >> i) & 1u ? 0xB2 : 0xA1;
+                        src[i] = (content >> i) & 1u ? letter1 : letter0;
                     step(&b, mem, &m, op, n, src, "closure");
                     trans++;
                     memset(&cur, 0, sizeof cur);
@@ -306,8 +310,8 @@ u_closure(uint64_t idx, void *arg)
     }
     VH_COUNTN("closure: distinct states (offset, used, content)", nst);
     VH_COUNTN("closure: transitions executed", trans);
-    vh_countf("closure complete size=%zu", size);
-    vh_sample("closure", "size=%zu alphabet={a1,b2}: %zu states, %zu transitions", size, nst, trans);
+    vh_countf("closure complete size=%zu%s", size, idx >= 5 ? " with zero octets" : "");
+    vh_sample("closure", "size=%zu alphabet={%02x,%02x}: %zu states, %zu transitions", size, letter0, letter1, nst, trans);
 }
 
 /* ---- set-up argument checks ---- */
@@ -469,7 +473,8 @@ u_history(uint64_t idx, void *arg)
                 if (n > MAXSZ)
                     n = MAXSZ;
                 for (size_t j = 0; j < n; j++) {
-                    src[j] = (unsigned char)(next % 251u + 1u);
+                    /* every second history carries zero octets (one in four), the others never do */
+                    src[j] = (idx & 1) && (next & 3u) == 0 ? 0 : (unsigned char)(next % 251u + 1u);
                     next++;
                 }
             }
@@ -521,8 +526,9 @@ u_history(uint64_t idx, void *arg)
 void
 harness_run(void)
 {
-    for (uint64_t i = 0; i < 5; i++)
+    for (uint64_t i = 0; i < 10; i++)
         vh_unit("closure", i, u_closure, NULL);
+    vh_require("closure complete size=5 with zero octets");
     vh_unit("setup", 0, u_setup, NULL);
     uint64_t nh = vh_tier ? 24000 : 200;
     for (uint64_t i = 0; i < nh; i++)
